@@ -7,13 +7,18 @@
     errwrap  {"exc": null | {cls, isException, isValueError, line, column, str}, "version", "path", "lines"}
              -> {"returned": true} | {"raised": cls, "msg": msg};  attr: "missing" | null | int | "other"
     preexpand {"lines": [str]} -> {"ok": [str]}   (`_apply_pre_parsing_expansions`, line lists)
-    numbered {"lines": [str]} -> {"ok": [[text, indentation, comment|null, number]]} | {"err": "IndexError"}
+    textseg  {"text": str, "toks": [[offset, ty, len]], "k": n?} -> {"seg": [pieces], "text"?: scaled text} | {"segerr": "badChar"}
+             the character-level scanner `TextLayout.seg` with the body-token oracle given as a table of token starts
+    numbered {"lines": [str] | "text": str, "k": n?} -> {"ok": [[text, indentation, comment|null]], "tight": bool} | {"err": "IndexError", "tight": bool}
+             with "k": the records of the lines after `scaleLine k`; "tight" = every line satisfies `openerTight` (hypothesis of
+             `numbered_lines_scale_partial`)
 -/
 import NemoVerif.Drive.Common
 import NemoVerif.Models.Layout
 import NemoVerif.Models.ErrWrap
 import NemoVerif.Models.NumberedLines
 import NemoVerif.Models.PreExpand
+import NemoVerif.Models.TextLayout
 
 namespace NemoVerif.Drive.C13
 open Lean NemoVerif NemoVerif.Drive
@@ -33,6 +38,13 @@ def pieceOfJson (j : Json) : Except String Layout.Piece := do
 def safeStr (s : String) : Json :=
   .str (String.ofList (s.toList.map fun ch =>
     if ch = '\u0085' then '\uE085' else if ch = '\u2028' then '\uE028' else if ch = '\u2029' then '\uE029' else ch))
+
+def pieceToJson : Layout.Piece → Json
+  | .tok ty v => Json.arr #[.str "t", .str ty, safeStr v]
+  | .ws .sp => Json.arr #[.str "s"]
+  | .ws .tab => Json.arr #[.str "b"]
+  | .comment c => Json.arr #[.str "c", safeStr c]
+  | .nl cr => Json.arr #[.str "n", .bool cr]
 
 def indStr (l : List Layout.Ws) : String :=
   String.ofList (l.map fun w => match w with | .sp => ' ' | .tab => '\t')
@@ -90,18 +102,48 @@ def handle (op : String) (j : Json) : Except String Json := do
     | .returned => pure (Json.mkObj [("returned", .bool true)])
     | .raised cls msg => pure (Json.mkObj [("raised", .str cls), ("msg", safeStr msg)])
   | "numbered" =>
-    let la ← (← j.getObjVal? "lines").getArr?
-    let lines ← la.toList.mapM fun x => x.getStr?
-    match NumberedLines.numbered (lines.map String.toList) with
-    | .error .indexError => pure (Json.mkObj [("err", .str "IndexError")])
-    | .error .typeError => pure (Json.mkObj [("err", .str "TypeError")])
-    | .ok recs => pure (Json.mkObj [("ok", Json.arr (recs.map fun r =>
+    -- either the lines (`content.split("\n")` done by the harness) or the content itself (`"text"`: Lean's own `splitNL`)
+    let ls0 ← match j.getObjVal? "text" with
+      | .ok tj => do pure (NumberedLines.splitNL (← tj.getStr?).toList)
+      | _ => do
+        let la ← (← j.getObjVal? "lines").getArr?
+        let lines ← la.toList.mapM fun x => x.getStr?
+        pure (lines.map String.toList)
+    let tight := Json.bool (ls0.all NumberedLines.openerTight)
+    let ls := match j.getObjVal? "k" with
+      | .ok kj => match kj.getNat? with
+        | .ok k => match j.getObjVal? "text" with
+          | .ok (.str t) => NumberedLines.splitNL (NumberedLines.scaleContent k t.toList)   -- content level (`numbered_content_scale_partial`)
+          | _ => ls0.map (NumberedLines.scaleLine k)
+        | _ => ls0
+      | _ => ls0
+    match NumberedLines.numbered ls with
+    | .error .indexError => pure (Json.mkObj [("err", .str "IndexError"), ("tight", tight)])
+    | .error .typeError => pure (Json.mkObj [("err", .str "TypeError"), ("tight", tight)])
+    | .ok recs => pure (Json.mkObj [("tight", tight), ("ok", Json.arr (recs.map fun r =>
         Json.arr #[safeStr (String.ofList r.text), Json.num (JsonNumber.fromNat r.indentation),
           match r.comment with | none => .null | some c => safeStr (String.ofList c)]).toArray)])
   | "preexpand" =>
     let la ← (← j.getObjVal? "lines").getArr?
     let lines ← la.toList.mapM fun x => x.getStr?
     pure (Json.mkObj [("ok", Json.arr ((PreExpand.preExpand (lines.map String.toList)).map fun l => safeStr (String.ofList l)).toArray)])
+  | "textseg" =>
+    let text ← (← j.getObjVal? "text").getStr?
+    let ta ← (← j.getObjVal? "toks").getArr?
+    let table ← ta.toList.mapM fun e => do
+      let a ← e.getArr?
+      match a.toList with
+      | [p, .str ty, n] => do pure ((← p.getNat?), ty, (← n.getNat?))
+      | _ => throw "bad token entry"
+    -- with "k": the text is first scaled by `TextLayout.scaleText k` (the table then refers to the scaled text, which is returned too)
+    let (cs, extra) := match j.getObjVal? "k" with
+      | .ok kj => match kj.getNat? with
+        | .ok k => let t := TextLayout.scaleText k false text.toList; (t, [("text", safeStr (String.ofList t))])
+        | _ => (text.toList, [])
+      | _ => (text.toList, [])
+    match TextLayout.seg (TextLayout.tableOracle cs.length table) false 0 cs with
+    | .error e => pure (Json.mkObj (("segerr", .str (errName e)) :: extra))
+    | .ok ps => pure (Json.mkObj (("seg", Json.arr (ps.map pieceToJson).toArray) :: extra))
   | _ => throw s!"unknown op C13.{op}"
 
 end NemoVerif.Drive.C13
